@@ -19,6 +19,18 @@ CLAIMED = {
             'Bounded symbolic model checking of the real Transition::nameMatch against a token-prefix oracle: all descriptor/name strings up to the stated lengths over every Unicode scalar value (one path per UTF-8 width pattern, z3 discharges the equivalence for all chars of that pattern); thorough tier re-decides a smaller bound bit-precisely with Kani.',
             'Trusted: mirsym string models (starts_with/len/as_bytes on symbolic chars), validated against native runs and (thorough) Kani; the oracle in harness/src/h_match.rs. Outside: longer strings, reader-side normalisation.',
             'DESIGN.md §4 C19'),
+    'C01': ('model_checking', 'symbolic execution of rustc MIR (mirsym) + z3: inductive step of the real selectTransitions/microstep from every legal pre-state',
+            'Bounded symbolic model checking, inductive: from an arbitrary legal configuration and arbitrary legal history record (not only reachable ones) the real selection + microstep code is executed with symbolic transitions (source, targets, type, event, guard outcome); z3 discharges, on every feasible path, that the post-configuration is legal, duplicate-free, the history invariant holds again and no state is entered while active / exited while inactive. One inductive step covers event histories of any length for the catalogue shapes.',
+            'Trusted: mirsym + environment models; the legality/invariant predicates in harness/src/sc.rs and h_fsm.rs. Bounds: 12 catalogue shapes (<= 11 states), T <= 2 symbolic transitions. One known finding (history target inside its un-exited parent re-runs onentry, W3C-literal).',
+            'DESIGN.md §4 C01, §2.5, Appendix A'),
+    'C02': ('model_checking', 'symbolic execution of rustc MIR (mirsym) + z3 against an independently written reference semantics (differential, symbolic inputs)',
+            'Bounded symbolic model checking against a reference: the ordered enabled-transition set, the guard-evaluation log, the exact sequence of exit/transition/entry bodies, the resulting configuration as an ordered set and the internal queue produced by the real code equal those of the bit-mask reference implementation of the W3C algorithm, as solver-checked equalities on every feasible path; hash-map iteration order is an arbitrary permutation, so order-dependence would surface as a refuted equality (determinism).',
+            'Trusted: mirsym + environment models; the reference semantics in harness/src/sc.rs (cross-checked by the oracle-free C01 obligations and by native differential runs). Bounds as C01.',
+            'DESIGN.md §4 C02, §2.5'),
+    'C06': ('model_checking', 'symbolic execution of rustc MIR (mirsym) + z3 on shapes with shallow/deep history (compound and parallel parents)',
+            'Same runs as C02 restricted to the history obligations: after exiting an owner the stored history equals the reference record computed from the pre-configuration (shallow: active children, deep: active atomic descendants); a transition targeting a history state enters exactly the reference set, and the default-transition content appears in the trace iff nothing was recorded, after the owner onentry.',
+            'Trusted: as C02. Bounds: 5 catalogue shapes with history (shallow in compound, deep, shallow inside a parallel region, shallow owned by a parallel, deep above nested parallels), every legal recorded value, T <= 2.',
+            'DESIGN.md §4 C06'),
 }
 NA_REASON = {}
 
